@@ -22,6 +22,7 @@ import TonVerif.Drv.Hashmap
 import TonVerif.Drv.Boc
 import TonVerif.Drv.BocEntry
 import TonVerif.Drv.TlbSrc
+import TonVerif.Drv.TlbSrcTx
 
 open TonVerif TonVerif.Drv
 
@@ -43,7 +44,8 @@ def handlers : List (String → List String → Option String) := [
   Hashmap.handle?,
   Boc.handle?,
   BocEntry.handle?,
-  TlbSrc.handle?
+  TlbSrc.handle?,
+  TlbSrcTx.handle?
 ]
 
 def handle (op : String) (args : List String) : String :=
